@@ -204,6 +204,10 @@ func runCase(c *Case) (string, string) {
 		}
 		return out
 	}
+	// While the finding C08:lost-at-unsubscribe is open, a subscriber
+	// that unsubscribes mid-stream is not required to receive its whole
+	// window; what it may miss is bounded below (weakLeavers).
+	weak := vkit.Known("C08:lost-at-unsubscribe")
 	if c.lossless() {
 		var missing string
 		lostKey := "lost"
@@ -212,6 +216,9 @@ func runCase(c *Case) (string, string) {
 				lostKey = "lost"
 				if c.Subs[i].UnsubscribeAfter >= 0 {
 					lostKey = "lost-at-unsubscribe"
+					if weak {
+						continue
+					}
 				}
 				have := map[int]bool{}
 				for _, v := range s.received() {
@@ -259,6 +266,40 @@ func runCase(c *Case) (string, string) {
 			seen[v] = true
 		}
 		order = append(order, got)
+	}
+	if c.lossless() && weak {
+		// early leavers under the open finding: messages that were
+		// still undispatched when the unsubscription took effect may be
+		// missing - with one dispatch worker these are, per publisher,
+		// the newest ones: whatever is missing from the window must be
+		// newer than everything received from that publisher.  A gap
+		// (an older message missing while a newer one of the same
+		// publisher arrived) is a different loss and is reported.
+		for i, s := range subs {
+			if c.Subs[i].UnsubscribeAfter < 0 {
+				continue
+			}
+			vkit.Excluded(tBroker, "C08:lost-at-unsubscribe")
+			if c.Workers > 1 {
+				continue
+			}
+			want := must(s)
+			newest := map[int]int{}
+			for _, v := range order[i] {
+				if p, k := v/1000, v%1000; k >= newest[p] {
+					newest[p] = k + 1
+				}
+			}
+			have := map[int]bool{}
+			for _, v := range order[i] {
+				have[v] = true
+			}
+			for v := range want {
+				if p, k := v/1000, v%1000; !have[v] && k < newest[p] {
+					return "lost", fmt.Sprintf("subscriber %d (which unsubscribed mid-stream) has not received message %d of publisher %d although it received the later message %d of that publisher: %v", i, k, p, newest[p]-1, order[i])
+				}
+			}
+		}
 	}
 	if c.lossless() && c.Workers <= 1 {
 		// one dispatch worker: publisher order is preserved …
@@ -316,11 +357,7 @@ func genCase(t *rapid.T) *Case {
 			s.SubscribeAfter = rapid.IntRange(1, total).Draw(t, "subscribeAfter")
 		}
 		if rapid.IntRange(0, 2).Draw(t, "leavesEarly") == 0 {
-			if vkit.Known("C08:lost-at-unsubscribe") && c.lossless() {
-				vkit.Excluded(tBroker, "C08:lost-at-unsubscribe")
-			} else {
-				s.UnsubscribeAfter = rapid.IntRange(0, total).Draw(t, "unsubscribeAfter")
-			}
+			s.UnsubscribeAfter = rapid.IntRange(0, total).Draw(t, "unsubscribeAfter")
 		}
 		c.Subs = append(c.Subs, s)
 	}
